@@ -123,6 +123,7 @@ int build_tree_kmeans(struct msa* msa, struct aln_tasks** tasks)
         }
         START_TIMER(timer);
         RUNP(anchors = pick_anchor(msa, &num_anchors));
+        KV_HOOK(kv_anchors(anchors, num_anchors, msa->numseq));
 
         RUNP(dm = d_estimation(msa, anchors, num_anchors,0));//les,int pair)
         KV_HOOK(kv_dm(dm, msa->numseq, num_anchors, 0));
